@@ -12,6 +12,8 @@ def classify(prop, cfg, impl_line, model_line):
     kind = (impl_line[:1] if impl_line and impl_line != "<end>" else model_line[:1])
     if (impl_line or "").startswith("R ") or (model_line or "").startswith("R "):
         kind = "R"   # a response one side has and the other has not (or has differently)
+    elif (impl_line or "").startswith("M ") or (model_line or "").startswith("M "):
+        kind = "M"   # a stored record one side has and the other has not (or has differently)
     if (impl_line or "").startswith("SERVED") or (model_line or "").startswith("SERVED"):
         kind = "V" if "V" in rel else "C"
     if (impl_line or "").startswith("TTL") or (model_line or "").startswith("TTL"):
@@ -133,6 +135,12 @@ def run_property(prop, tier, seed, replay):
             continue
         cls = m["class"]
         kf = [k for k in known if k.get("class") == cls] if (m["kind"] == "NONLIN" and cfg.get("known_classes")) else []
+        if kf and m.get("no_interference"):
+            # the known findings are interferences (C04_atomic_without_interference): an outcome
+            # that no order explains under a schedule without interference is something else
+            kf = []
+            m = dict(m, **{"class": cls + "+no-interference"})
+            cls = m["class"]
         if kf:
             reproduced.setdefault(cls, (kf[0], m))
             continue
